@@ -64,6 +64,8 @@ def run(ctx):
     from . import c02
 
     c02.reify_algebra(ctx.renamed("R06.7"))
+    ctx.rule("R06.8", "the transformed form: X * M works on a copy, abs() reifies a copy, reify applies the matrix to every stored point, resets it and drops the cached lengths (obligations shared with C02 R02.4)")
+    c02.lazy(ctx.renamed("R06.8"))
 
 
 SEG_KINDS = ("Move", "Line", "Arc", "Close", "QuadraticBezier", "CubicBezier")
@@ -468,6 +470,12 @@ def clamp_after_render(ctx):
     ctx.ob("R06.2", "Rect.render[radii clamped once the lengths are resolved]", (not skipped) or bool(after),
            "clamp in _validate_rect is skipped on ValueError: %s; clamp after resolution in render: %s" % (skipped, bool(after)), rn.lineno,
            "<rect width=\"40\" height=\"40\" rx=\"1in\"/> keeps rx = 96: the clamp to half the side ran before the unit was resolved and was skipped")
+    # ... whichever of the six lengths it was that had to be resolved: the skipped clamp is as much a matter of the SIDES being
+    # unresolved (width="1in" rx="80") as of the radii, so the repetition must not depend on what was resolved
+    if skipped and after:
+        top = [st for st in after if any(st is x for x in rn.body)]
+        ctx.ob("R06.2", "Rect.render[the clamp is repeated on every path]", bool(top), "unconditional statements of render among %d clamp(s) after the resolution: %d" % (len(after), len(top)), after[0].lineno,
+               "<rect width=\"1in\" height=\"0.5in\" rx=\"80\"/>: the constructor could not clamp (the sides were lengths) and render re-validates only when a radius was a length")
 
 
 def save_restore(ctx, rule="R06.4"):
